@@ -12,6 +12,7 @@ sys.path.insert(0, os.path.dirname(os.path.dirname(os.path.abspath(__file__))))
 REGISTRY = {
     "C01": "matching",
     "C02": "matching",
+    "C04": "ap",
 }
 
 
